@@ -184,8 +184,24 @@ def _walk(root: str):
             yield os.path.normpath(os.path.join(rel, f)), p
 
 
-def weave_file(rel: str, original: str, units: List[Unit]) -> str:
-    """Return woven text for one file.  Raises WeaveError on a lost anchor."""
+def _blank_items(tail: str, names) -> str:
+    """Blank out (keeping the line count) the fn items of the woven cfg(kani) tail whose name is in `names`."""
+    if not names:
+        return tail
+    try:
+        items = rustscan.scan_items(tail)
+    except rustscan.ScanError:
+        return tail
+    cut = sorted(((it.start, it.end) for it in items if it.kind == 'fn' and it.name in names), reverse=True)
+    for a, b in cut:
+        tail = tail[:a] + '\n' * tail[a:b].count('\n') + tail[b:]
+    return tail
+
+
+def weave_file(rel: str, original: str, units: List[Unit], disabled=None, lost=None) -> str:
+    """Return woven text for one file.  A lost anchor of a contract attribute raises WeaveError unless a
+    `lost` list is given (then the attribute is skipped and recorded there).  `disabled`: names of harness /
+    helper fns of the woven tail to leave out (they do not compile against the edited source)."""
     inserts: List[Tuple[int, str]] = []     # (offset, text)
     my_attrs = [a for u in units if u.target == rel and not u.new for a in u.attrs]
     if my_attrs:
@@ -197,6 +213,9 @@ def weave_file(rel: str, original: str, units: List[Unit]) -> str:
             try:
                 it = rustscan.find_fn(items, a.fn, a.impl)
             except rustscan.ScanError as e:
+                if lost is not None:
+                    lost.append((rel, a.impl, a.fn, str(e)))
+                    continue
                 raise WeaveError('%s: lost anchor (%s)' % (rel, e))
             ls = original.rfind('\n', 0, it.decl) + 1
             indent = original[ls:it.decl]
@@ -210,6 +229,8 @@ def weave_file(rel: str, original: str, units: List[Unit]) -> str:
         for (t, line) in u.appends:
             if t == rel:
                 tail += line + '\n'
+    if tail and disabled:
+        tail = _blank_items(tail, {n for (t, n) in disabled if t == rel})
     if tail and not original.endswith('\n'):
         tail = '\n' + tail
     inserts.sort()
@@ -237,7 +258,7 @@ def weave_file(rel: str, original: str, units: List[Unit]) -> str:
     return woven
 
 
-def weave(repo: str, out: str, contracts_dir: str):
+def weave(repo: str, out: str, contracts_dir: str, disabled=None, lost=None):
     units = load_units(contracts_dir)
     targets = {u.target for u in units if not u.new} | {t for u in units for (t, _) in u.appends}
     want: Dict[str, bytes] = {}
@@ -246,14 +267,17 @@ def weave(repo: str, out: str, contracts_dir: str):
         data = open(p, 'rb').read()
         if rel in targets:
             seen_targets.add(rel)
-            data = weave_file(rel, data.decode('utf-8'), units).encode('utf-8')
+            data = weave_file(rel, data.decode('utf-8'), units, disabled, lost).encode('utf-8')
         want[rel] = data
     missing = targets - seen_targets
     if missing:
         raise WeaveError('lost anchor: target file(s) missing: %s' % ', '.join(sorted(missing)))
     for u in units:
         if u.new:
-            want[u.target] = ('// woven by /verif/tools/weave.py from contracts/%s.rs\n' % u.name + u.body + '\n').encode()
+            body = u.body
+            if disabled:
+                body = _blank_items(body, {n for (t, n) in disabled if t == u.target})
+            want[u.target] = ('// woven by /verif/tools/weave.py from contracts/%s.rs\n' % u.name + body + '\n').encode()
     # Cargo.toml: benches/tests are not copied -> drop [[bench]] sections (build metadata only)
     ct = want['Cargo.toml'].decode()
     ct = re.sub(r'\[\[bench\]\]\nname = "[^"]*"\nharness = false\n+', '', ct)
